@@ -102,14 +102,29 @@ def gen_history(rnd: random.Random, hid: int) -> dict:
             ops.append({"op": "u", "conn": i, "cur": cur, "name": name, "sql": f"{rnd.choice(['unset', 'UNSET'])} {spell(name.lower(), rnd)}"})
             del spec[i][name]
         else:
-            ops.append(gen_query(rnd, i, cur, spec[i], pool))
+            ops.append(gen_query(rnd, i, cur, spec[i], pool, all_names=[n for e in spec for n in e]))
     return {"id": hid, "nconn": nconn, "ops": ops}
 
 
-def gen_query(rnd, i, cur, env: dict, pool) -> dict:
+def gen_query(rnd, i, cur, env: dict, pool, all_names=()) -> dict:
     items, expect, err, lit, undef_item = [], [], None, False, None
+    bound = rnd.random() < 0.3          # a statement with pyformat-bound parameters
+    params, wires = [], []
     for _ in range(rnd.randint(1, 3)):
         k = rnd.random()
+        if bound and k < 0.45:
+            # a bound value: data, whatever `$name` it contains (defined here, defined elsewhere, undefined)
+            pct_ref = any(isinstance(v, str) and "%" in v for v in env.values())
+            if rnd.random() < 0.8 and not pct_ref:
+                n = rnd.choice(list(env) + list(all_names) + UNDEF)
+                val = rnd.choice(["costs ${}", "${}", "a ${} b", "${}$", "'${}'", "${}10"]).format(spell(n.lower(), rnd))
+            else:
+                val = rnd.choice(["plain", "it's", "$", "$$", "a$ b", 7, 0])
+            items.append("%s")
+            params.append(val)
+            wires.append(("S:" + enc_str(val)) if isinstance(val, str) else ("N:" + enc_str(repr(val))))
+            expect.append(canon(val))
+            continue
         defined = list(env)
         if k < 0.5 and defined:
             n = rnd.choice(defined)
@@ -135,7 +150,7 @@ def gen_query(rnd, i, cur, env: dict, pool) -> dict:
             items.append(f"$${n}$$")          # a `$$` string, not a reference
             expect.append(("str", n))
         elif k < 0.8:
-            s = rnd.choice(["a$", "$ b", "$$", "100%", "$", "a$ $", "$-1", "x$$"])
+            s = rnd.choice(["a$", "$ b", "$$", "$", "a$ $", "$-1", "x$$"] + ([] if bound else ["100%"]))
             items.append(f"'{s}'")
             expect.append(("str", s))
         elif k < 0.9:
@@ -156,6 +171,9 @@ def gen_query(rnd, i, cur, env: dict, pool) -> dict:
         lit = True
     elif k < 0.3:
         sql += rnd.choice([";", " ;", "\n", " -- tail", " /* c */"])
+    if bound and params:
+        return {"op": "b", "conn": i, "cur": cur, "sql": sql, "expect": None if err else [expect], "err": err, "lit": lit, "undef_item": undef_item,
+                "params": params, "wires": wires}
     return {"op": "q", "conn": i, "cur": cur, "sql": sql, "expect": None if err else [expect], "err": err, "lit": lit, "undef_item": undef_item}
 
 
@@ -169,6 +187,8 @@ def _lines(hists):
                 ops.append(",".join(["s", str(o["conn"]), enc_str(o["name"]), o["kind"], enc_str(o["sql"])]))
             elif o["op"] == "u":
                 ops.append(",".join(["u", str(o["conn"]), enc_str(o["name"])]))
+            elif o["op"] == "b":
+                ops.append(",".join(["b", str(o["conn"]), enc_str(o["sql"]), "+".join(o["wires"])]))
             else:
                 ops.append(",".join(["q", str(o["conn"]), enc_str(o["sql"])]))
         lines.append(f"vars\thist\t{h['nconn']}\t" + enc_list(ops))
@@ -181,8 +201,12 @@ def _attach(hists, replies):
         if len(obs) != len(h["ops"]) or "bad" in obs:
             raise common.Infra(f"model rejected history {h['id']}: {rep['_raw'][:300]}")
         for o, ob in zip(h["ops"], obs):
-            body, _, lit = ob.partition("|")
+            parts = ob.split("|")
+            body, lit = parts[0], parts[1] if len(parts) > 1 else "0"
             o["m_lit"] = lit == "1"
+            o["m_pct"] = len(parts) > 2 and parts[2] == "1"
+            fin = parts[3] if len(parts) > 3 else "-"
+            o["m_final"] = ("ok", dec_str(fin[3:])) if fin.startswith("ok:") else (fin, None)
             o["m_bad"] = "!impl" in body
             body = body.split("!")[0]
             if body.startswith("ok:"):
@@ -205,8 +229,8 @@ def _outcome(fn):
         return ("err", type(e).__name__, None, None, None)
 
 
-def _select(cur, sql):
-    cur.execute(sql)
+def _select(cur, sql, params=None):
+    cur.execute(sql, params)
     return ("rows", [[canon(c) for c in r] for r in cur.fetchall()])
 
 
@@ -227,9 +251,13 @@ def _worker(hists):
                     r = _outcome(lambda: _select(cur, o["sql"]))
                     res.append({"real": r})
                 else:
-                    r = {"real": _outcome(lambda: _select(cur, o["sql"]))}
+                    params = tuple(o["params"]) if o["op"] == "b" else None
+                    r = {"real": _outcome(lambda: _select(cur, o["sql"], params))}
                     if o["model"][0] == "ok":
-                        r["twin"] = _outcome(lambda: _select(twin.cursor(), o["model"][1]))
+                        # the model's inlined command on a connection without variables (the same values bound, if any)
+                        r["twin"] = _outcome(lambda: _select(twin.cursor(), o["model"][1], params))
+                    if o["op"] == "b" and o["m_pct"] and o["m_final"][0] == "ok":
+                        r["twin_final"] = _outcome(lambda: _select(twin.cursor(), o["m_final"][1]))
                     if o.get("err"):
                         # nothing may be executed: a DML carrying the same undefined reference leaves the table alone
                         dml = f"insert into t select 1 where {o.get('undef_item') or '$' + o['err'].lower()} is null or true"
@@ -251,7 +279,7 @@ def _judge(chk, h, res):
     if prefix_pair:
         chk.count("histories:with-prefix-pair")
     for idx, (o, r) in enumerate(zip(h["ops"], res)):
-        keep = ("op", "conn", "cur", "name", "kind", "sql", "expect", "err", "lit", "undef_item")
+        keep = ("op", "conn", "cur", "name", "kind", "sql", "expect", "err", "lit", "undef_item", "params", "wires")
         case = {"kind": "hist", "nconn": h["nconn"], "ops": [{k: x[k] for k in keep if k in x} for x in h["ops"][: idx + 1]], "failing_op": idx}
         real = r["real"]
         chk.count("op:" + o["op"])
@@ -275,7 +303,15 @@ def _judge(chk, h, res):
             held = real == want
             chk.count("q:defined" + (":lit" if o["lit"] else ""))
         # model prediction
-        if o["model"][0] == "ok":
+        if o["op"] == "b":
+            chk.count("q:bound")
+        if o["op"] == "b" and o["m_pct"] and o["model"][0] == "ok":
+            # a referenced value contains `%`: the model of the code formats it together with the command
+            if o["m_final"][0] == "ok":
+                pred_ok = r["twin_final"] == real or (r["twin_final"][0] == "err" and real[0] == "err" and r["twin_final"][1:4] == real[1:4])
+            else:
+                pred_ok = real[0] == "err" and real[1] in ("TypeError", "ValueError", "KeyError")
+        elif o["model"][0] == "ok":
             pred = r["twin"]
             pred_ok = (pred == real) or (pred[0] == "err" and real[0] == "err" and pred[1:4] == real[1:4])
         else:
@@ -287,10 +323,13 @@ def _judge(chk, h, res):
                 return
             chk.count("held")
             continue
-        what = (f"history #{h['id']} (connection {o['conn']}, cursor {o['cur']}) after {[x['sql'] for x in h['ops'][:idx]]}: `{o['sql']}` gave {_short(real)} "
+        what = (f"history #{h['id']} (connection {o['conn']}, cursor {o['cur']}) after {[x['sql'] for x in h['ops'][:idx]]}: `{o['sql']}`{(' with bound parameters ' + repr(tuple(o['params']))) if o['op'] == 'b' else ''} gave {_short(real)} "
                 f"but the variables stand for {_short(want)}" + (f"; dml={r.get('dml')} count={r.get('count')}" if o["err"] else ""))
         if o["m_lit"] and pred_ok:
             chk.finding("C15/dollar-in-literal-or-comment", what, case)
+            continue
+        if o["op"] == "b" and o.get("m_pct") and pred_ok:
+            chk.finding("C15/percent-in-value-with-params", what, case)
             continue
         chk.violation(what, case, broken="C15_exact/C15_reference/C15_undefined/C15_scope (correspondence with Fs.Vars + values read back)")
         return
@@ -338,6 +377,12 @@ def corpus_histories() -> list[dict]:
         [s(0, "s", "S:" + enc_str("x"), "'x'"), q(0, "select 'costs $5'", [[("str", "costs $5")]], lit=True), q(0, "select '$s'", [[("str", "$s")]], lit=True),
          q(0, "select 1 -- $5", [[("int", 1)]], lit=True)],
     ]
+    def b(i, sql, params, expect=None, err=None):
+        return {"op": "b", "conn": i, "cur": 0, "sql": sql, "expect": expect, "err": err, "lit": False, "undef_item": None, "params": params,
+                "wires": [("S:" + enc_str(p)) if isinstance(p, str) else ("N:" + enc_str(repr(p))) for p in params]}
+    hs.append([s(0, "usd", "N:" + enc_str("5"), "5"), b(0, "select %s, $usd", ["costs $USD"], [[("str", "costs $USD"), ("int", 5)]]),
+               b(0, "select %s", ["refund of $eur"], [[("str", "refund of $eur")]]), b(1, "select %s, %s", ["$usd", "$Usd10"], [[("str", "$usd"), ("str", "$Usd10")]])])
+    hs.append([s(0, "p", "S:" + enc_str("50%"), "'50%'"), b(0, "select $p, %s", [1], [[("str", "50%"), ("int", 1)]]), q(0, "select $p", [[("str", "50%")]])])
     return [{"id": -1 - k, "nconn": 2, "ops": ops} for k, ops in enumerate(hs)]
 
 
@@ -354,7 +399,7 @@ def _execute(chk, hists):
 def run(chk) -> None:
     rnd = random.Random(chk.seed)
     chk.rule = ("histories of 6-14 SET / UNSET / SELECT steps over pools of 3-9 names with forced prefix pairs (v1/v10, var/var1/var10, a/ab/abc) and random letter case, "
-                "values: adversarial strings (quotes, backslashes, newlines, %, lone $, $$, comment markers, unicode), ints, decimals, negative numbers, a+b/a-b/a*b, "
+                "statements with pyformat-bound values containing `$name` (defined on this / another connection, undefined); values: adversarial strings (quotes, backslashes, newlines, %, lone $, $$, comment markers, unicode), ints, decimals, negative numbers, a+b/a-b/a*b, "
                 "$other; references bare / in arithmetic / before ; ) , and neighbours that are undefined; `$$name$$` strings; `$word` in literals and comments; "
                 "2 connections × 2 cursors + a variable-free twin.  non-trivial = distinct history containing a query")
     gen_ties(chk)
